@@ -58,4 +58,19 @@ theorem partition_blocks_ok (b l e aL aS nL n : Nat) (hb : 0 < b) (he : 0 < e) (
       · exact hq
       · split at hALB <;> omega
 
+theorem divCeil_le (a b m : Nat) (hb : 0 < b) (h : a ≤ m * b) : divCeil a b ≤ m := by
+  unfold divCeil
+  have hq : a / b ≤ m := Nat.div_le_of_le_mul (by rw [Nat.mul_comm]; exact h)
+  split
+  · exact hq
+  · rename_i hr
+    have hdm := Nat.div_add_mod a b
+    by_cases hlt : a / b < m
+    · omega
+    · have heq : a / b = m := by omega
+      rw [heq] at hdm
+      have : b * m = m * b := Nat.mul_comm _ _
+      omega
+
+
 end Flute.Lemmas.Session
